@@ -139,6 +139,27 @@ func buildShared(d protoreflect.Message, variant int) proto.Message {
 	if variant < 2 {
 		return enum.BuildGo(d)
 	}
+	if variant == 5 {
+		// every singular google.protobuf.Any field carries a payload of this very (pulsar) type whose unknown records are
+		// separated by known fields: JSON marshalling decodes that payload out of the shared message's own bytes
+		g := enum.BuildGo(d)
+		md := d.Descriptor()
+		ua := enum.UnknownAlphabet(md, enum.Reduced)
+		inner, _ := proto.MarshalOptions{Deterministic: true}.Marshal(richValue(md, 0).Interface())
+		payload := append(append(append([]byte(nil), ua[0]...), inner...), ua[1]...)
+		m := enum.Slow(g)
+		fs := md.Fields()
+		for i := 0; i < fs.Len(); i++ {
+			fd := fs.Get(i)
+			if fd.Message() == nil || fd.Message().FullName() != "google.protobuf.Any" || fd.IsList() || fd.IsMap() || fd.ContainingOneof() != nil {
+				continue
+			}
+			a := m.Mutable(fd).Message()
+			a.Set(a.Descriptor().Fields().ByName("type_url"), protoreflect.ValueOfString("/"+string(md.FullName())))
+			a.Set(a.Descriptor().Fields().ByName("value"), protoreflect.ValueOfBytes(append([]byte(nil), payload...)))
+		}
+		return g
+	}
 	if variant >= 4 {
 		// what plain Go code can build: a nil element in every message list, a nil value in every message map, the first
 		// message-kind member of every oneof selected with nil inside its wrapper
@@ -167,6 +188,17 @@ func buildShared(d protoreflect.Message, variant int) proto.Message {
 		panic(err)
 	}
 	return g
+}
+
+func hasAnyField(md protoreflect.MessageDescriptor) bool {
+	fs := md.Fields()
+	for i := 0; i < fs.Len(); i++ {
+		fd := fs.Get(i)
+		if fd.Message() != nil && fd.Message().FullName() == "google.protobuf.Any" && !fd.IsList() && !fd.IsMap() && fd.ContainingOneof() == nil {
+			return true
+		}
+	}
+	return false
 }
 
 func execute(md protoreflect.MessageDescriptor, variant int, ops [][]readOp, prefix []int) execResult {
@@ -444,7 +476,11 @@ func runScheduler(h *hz.H) {
 					if ti >= 3 && i != j && (i+j)%2 == 1 {
 						continue
 					}
-					jobs = append(jobs, job{md, 2 * ((i + j) % 3), [][]readOp{{alpha[i]}, {alpha[j]}}, 2, 6000})
+					v := 2 * ((i + j) % 3)
+				if (alpha[i].name == "protojson.Marshal" || alpha[j].name == "protojson.Marshal") && hasAnyField(md) {
+					v = 5
+				}
+				jobs = append(jobs, job{md, v, [][]readOp{{alpha[i]}, {alpha[j]}}, 2, 6000})
 				}
 			}
 		}
@@ -802,7 +838,10 @@ func runRacePass(h *hz.H) {
 	h.Rep.Bounds["partB_operation_tuples"] = len(tuples)
 	h.Rep.Bounds["partB_repetitions_per_tuple"] = reps
 	for _, md := range types {
-		for variant := 0; variant < 5; variant++ {
+		for variant := 0; variant < 6; variant++ {
+			if variant == 5 && !hasAnyField(md) {
+				continue
+			}
 			d := richValue(md, variant)
 			ref := buildShared(d, variant)
 			twinSeq := enum.BuildGo(d)
